@@ -162,14 +162,20 @@ def report(ctx, observations, verdicts, origin_default="replay"):
             clauses = list(v["failed"][j])
             if len(clauses) > 1 and "ExceptionType" in clauses:
                 clauses.remove("ExceptionType")      # already reported through the clause it breaks
+            if clauses and out not in ("ok", "ValueError"):
+                # one signature for "sort raised something that is not ValueError"; clauses in the detail
+                clauses = ["+".join(clauses)]
             for clause in clauses:
                 any_fail = True
                 outc = out if out in ("ok", "ValueError") else out.replace("other:", "raise-")
                 feat = meta.get("feature")
-                if feat:
-                    sig = f"C12:{clause}:feature-{feat}:{outc}"
+                who = f"feature-{feat}" if feat else api.split("@")[0]
+                if out not in ("ok", "ValueError"):
+                    sig = f"C12:{who}:{outc}" + ("" if feat else f":{_shape_class(inst)}")
+                elif feat:
+                    sig = f"C12:{clause}:{who}:{outc}"
                 else:
-                    sig = f"C12:{clause}:{api.split('@')[0]}:{outc}:{_shape_class(inst)}"
+                    sig = f"C12:{clause}:{who}:{outc}:{_shape_class(inst)}"
                 ctx.violation(sig, {
                     "message": f"{clause} violated by {api} on instance gOf={inst[0]} owner={inst[1]} order={inst[2]} ins={inst[3]} "
                                f"start graph {r}: outcome {out}, orders after {after}",
